@@ -984,6 +984,25 @@ void runCase(const Script &script, const Ctx &c, Ev &ev)
 VCHECK("c16.server", 400)
 {
     const Script script = generate(t);   // every random decision of the case is taken here, in the parent
+    // warm-up: one benign conversation inside the parent, so that every lazily initialised piece of Qt / OpenSSL /
+    // the library (CA store, regular expressions, meta types) is inherited by the children instead of being redone
+    static bool warmed = false;
+    if (!warmed) {
+        warmed = true;
+        Script ws;
+        auto mk = [](Kind k) {
+            Elem e;
+            e.k = k;
+            return e;
+        };
+        Elem msg = mk(K_STANZA), bind = mk(K_BIND);
+        msg.to = 1;
+        bind.res = 3;
+        ws.steps = { Step { { mk(K_STREAM) }, {} }, Step { { mk(K_AUTH1) }, { 0 } }, Step { { mk(K_STREAM) }, {} }, Step { { bind, msg }, {} } };
+        ws.sched.assign(8, Sched {});
+        Ev none;
+        runCase(ws, c, none);
+    }
 
     char tmpl[] = "/tmp/c16recXXXXXX", tmpl2[] = "/tmp/c16errXXXXXX";
     int fd = mkstemp(tmpl), efd = mkstemp(tmpl2);
